@@ -150,52 +150,174 @@ def _versioner(cn):
     return names, vtext
 
 
+class _PathState:
+    """Per-path value numbering for reassigned locals (versioned mode): `?v1` becomes `?v1#k` after its k-th
+    assignment, and `?v1#k` is replaced by the canonical text of what was assigned, so that `ok = f(); if (ok)`,
+    `if (f())` and `bool ok2 = f(); if (ok2)` give the same atom; bool values are kept as signed alternatives."""
+    import re as _re
+    RX = _re.compile(r"(\?\w+|\$\d+)#\d+")
+
+    def __init__(self, cn, versioned):
+        self.cn = cn
+        self.on = versioned
+        self.vnames, self.vtext = _versioner(cn) if versioned else (set(), None)
+        self.ver = {}
+        self.defs = {}
+        self.booldefs = {}
+
+    def r(self, text, ver=None):
+        if not self.on:
+            return text
+        ver = self.ver if ver is None else ver
+        t = self.vtext(text, ver) if ver else text
+        if self.defs:
+            t = self.RX.sub(lambda m: self.defs.get(m.group(0), m.group(0)), t)
+        return t
+
+    def alts(self, subs, ver=None):
+        if not self.on:
+            return subs
+        return [[(self.r(t, ver), p) for t, p in s_] for s_ in subs]
+
+    def _name_of(self, eff):
+        """(canonical name, variable id) of the whole variable an effect writes, else (None, None)."""
+        cn = self.cn
+        if eff[0] == "decl":
+            return (cn.lname(eff[1]["id"], eff[1]["n"]), eff[1]["id"]) if eff[1]["id"] in cn.multi else (None, None)
+        pth = eff[-1]
+        if len(pth) == 1 and pth[0][0] == "var":
+            if pth[0][1] in cn.params and pth[0][1] in cn.multi:
+                return "$%d" % cn.params[pth[0][1]], pth[0][1]
+            if pth[0][1] in cn.multi:
+                return cn.lname(pth[0][1], pth[0][2]), pth[0][1]
+        return None, None
+
+    def cur(self, name):
+        k = self.ver.get(name, 0)
+        return "%s#%d" % (name, k) if k else name
+
+    def bool_alts(self, node, outcome, ver=None):
+        """Signed alternatives under which the bool expression `node` has the value `outcome` (rendered)."""
+        s = strip(node, casts=True)
+        ver0 = self.ver if ver is None else ver
+        if self.on and s is not None and s.get("k") == "DeclRefExpr":
+            d = s["d"]
+            nm = None
+            if d["id"] in self.cn.multi:
+                nm = ("$%d" % self.cn.params[d["id"]]) if d["id"] in self.cn.params else self.cn.lname(d["id"], d["n"])
+            if nm is not None:
+                k = ver0.get(nm, 0)
+                cur = "%s#%d" % (nm, k) if k else nm
+                if cur in self.booldefs:
+                    return self.booldefs[cur][0 if outcome else 1]
+        if s is not None and s.get("k") == "CXXBoolLiteralExpr":
+            return [[]] if bool(s["v"]) == outcome else []
+        return self.alts(signed_atoms(self.cn, node, outcome), ver0)
+
+    def apply(self, stmt):
+        """Bump versions / record definitions for the assignments of one statement (in evaluation order)."""
+        if not self.on:
+            return
+        cn = self.cn
+        ver0 = dict(self.ver)        # right-hand sides and arguments are evaluated with the values before the statement
+        for eff in AI.effects(stmt):
+            if eff[0] == "call":
+                # a variable handed over by mutable reference has an unknown new value afterwards
+                c = eff[2].get("callee") or eff[2].get("ctor") or {}
+                ptypes = A.split_params(cn.fn.facts.T(c.get("t")))
+                cargs = A.call_args(eff[2]) if eff[2].get("k") in ("CallExpr", "CXXMemberCallExpr") else []
+                for a, pt in zip(cargs, ptypes):
+                    if A.mutable_ref(pt):
+                        vid = A.declref_id(strip(a, casts=True))
+                        if vid in cn.multi:
+                            nm = ("$%d" % cn.params[vid]) if vid in cn.params else cn.lname(vid, strip(a, casts=True)["d"]["n"])
+                            if nm in self.vnames:
+                                self.ver[nm] = self.ver.get(nm, 0) + 1
+                continue
+            if eff[0] not in ("assign", "set", "inc", "op", "decl"):
+                continue
+            nm, vid = self._name_of(eff)
+            if not nm or nm not in self.vnames:
+                continue
+            if vid in cn.escaped:
+                self.ver[nm] = self.ver.get(nm, 0) + 1
+                continue
+            rhs, rhs_node = None, None
+            if eff[0] == "decl":
+                rhs_node = eff[1].get("init")
+            elif eff[0] == "assign":
+                rhs_node = eff[2]
+            elif eff[0] == "set":
+                rhs = str(eff[2]).lower() if isinstance(eff[2], bool) else str(eff[2])
+            elif eff[0] == "inc":
+                rhs = "(%s %s 1)" % (self.r(nm), "+" if eff[2] > 0 else "-")
+            elif eff[0] == "op":
+                rhs = "(%s %s %s)" % (self.r(nm), eff[1][:-1], self.r(cn.c(eff[3]), ver0))
+            booldef = None
+            if rhs_node is not None:
+                rhs = self.r(cn.c(rhs_node), ver0)
+                if cn.fn.facts.TC(rhs_node.get("t")).replace("const ", "") == "bool":
+                    booldef = (self.bool_alts(rhs_node, True, ver0), self.bool_alts(rhs_node, False, ver0))
+            elif eff[0] == "set" and isinstance(eff[2], bool):
+                booldef = ([[]], []) if eff[2] else ([], [[]])
+            self.ver[nm] = self.ver.get(nm, 0) + 1
+            if rhs is not None:
+                self.defs[self.cur(nm)] = rhs
+            if booldef is not None:
+                self.booldefs[self.cur(nm)] = booldef
+
+
 def event_conditions(cn, region, events_of=default_events, unroll=0, drop=lambda atom: False, pre=None, known=None,
                      _depth=0, versioned=False, cond_events=False):
     """{(kind, text): DNF} for the events reached on the structured paths through `region`.
     DNF = set of frozensets of (atom, polarity). `drop(atom_text)` removes irrelevant atoms (e.g. verbose tests)."""
     table = {}
     nodes = {}
-    vnames, vtext = _versioner(cn) if versioned else (set(), None)
+
+    def record(key, node, alts, extra=None):
+        nodes.setdefault(key, node)
+        for a in alts:
+            for x in (extra if extra is not None else [[]]):
+                conj = frozenset((t, p) for t, p in a + x if not drop(t))
+                if _consistent(conj):
+                    table.setdefault(key, set()).add(conj)
+
     for ev, term_ in flow.paths(region, unroll=unroll):
         alts = [[]] if pre is None else [list(p) for p in pre]
-        ver = {}
+        st = _PathState(cn, versioned)
         for e in ev:
             if e[0] == "cond":
                 if cond_events:
                     # events inside a tested expression (a call with effects used directly as a condition) happen
                     # under the conditions collected so far
                     for x in events_of(cn, e[1]):
-                        key = (x.kind, vtext(x.text, ver) if (versioned and ver) else x.text)
-                        nodes.setdefault(key, x.node)
-                        for a in alts:
-                            conj = frozenset((t, p) for t, p in a if not drop(t))
-                            if _consistent(conj):
-                                table.setdefault(key, set()).add(conj)
-                subs = _expand(cn, e[1], e[2], 0)
-                if versioned and ver:
-                    subs = [[(vtext(t, ver), p) for t, p in s_] for s_ in subs]
+                        record((x.kind, st.r(x.text)), x.node, alts)
+                if versioned:
+                    subs = st.bool_alts(e[1], e[2])
+                else:
+                    subs = _expand(cn, e[1], e[2], 0)
                 alts = [a + s for a in alts for s in subs]
                 if len(alts) > 256:
                     raise AnalysisIncomplete("condition explosion in %s" % cn.fn.o["q"])
+                st.apply(e[1])          # a call in the tested expression may change what it was handed by reference
                 continue
             if e[0] == "stmt":
                 evs = events_of(cn, e[1])
             elif e[0] == "return":
                 v = e[1].get("value")
                 sv = strip(v, casts=True) if v is not None else None
+                is_bool = sv is not None and cn.fn.facts.TC(sv.get("t")).replace("const ", "") == "bool"
                 if cond_events and sv is not None and sv.get("k") == "ConditionalOperator":
                     # `return c ? a : b` is `if (c) return a; return b;`
                     for extra, arm in _ternary_arms(cn, sv):
-                        if versioned and ver:
-                            extra = [[(vtext(t, ver), p) for t, p in x] for x in extra]
-                        key = ("return", vtext(cn.c(arm), ver) if (versioned and ver) else cn.c(arm))
-                        nodes.setdefault(key, e[1])
-                        for a in alts:
-                            for x in extra:
-                                conj = frozenset((t, p) for t, p in a + x if not drop(t))
-                                if _consistent(conj):
-                                    table.setdefault(key, set()).add(conj)
+                        record(("return", st.r(cn.c(arm))), e[1], alts, st.alts(extra))
+                    evs = events_of(cn, v)
+                elif cond_events and is_bool:
+                    # `return b` for a bool expression is `if (b) return true; return false;`
+                    for val in (True, False):
+                        extra = st.bool_alts(v, val)
+                        if extra:
+                            record(("return", "true" if val else "false"), e[1], alts, extra)
                     evs = events_of(cn, v)
                 else:
                     evs = (events_of(cn, v) if v is not None else []) + \
@@ -206,32 +328,12 @@ def event_conditions(cn, region, events_of=default_events, unroll=0, drop=lambda
                 evs = [Event("throw", "", e[1])]
             else:
                 evs = []
-            if versioned:
-                # events are printed with the versions before the statement's own assignments take effect on the
-                # right-hand sides; assigned names are bumped afterwards
-                evs = [Event(x.kind, vtext(x.text, ver) if ver else x.text, x.node) for x in evs]
-                if e[0] == "stmt":
-                    for eff in AI.effects(e[1]):
-                        if eff[0] in ("assign", "set", "inc", "op", "decl"):
-                            if eff[0] == "decl":
-                                nm = cn.lname(eff[1]["id"], eff[1]["n"]) if eff[1]["id"] in cn.multi else None
-                            else:
-                                pth = eff[-1]
-                                nm = None
-                                if len(pth) == 1 and pth[0][0] == "var":
-                                    if pth[0][1] in cn.params and pth[0][1] in cn.multi:
-                                        nm = "$%d" % cn.params[pth[0][1]]
-                                    elif pth[0][1] in cn.multi:
-                                        nm = cn.lname(pth[0][1], pth[0][2])
-                            if nm and nm in vnames:
-                                ver[nm] = ver.get(nm, 0) + 1
+            # events are printed with the versions before the statement's own assignments take effect
+            evs = [Event(x.kind, st.r(x.text), x.node) for x in evs]
+            if e[0] == "stmt":
+                st.apply(e[1])
             for x in evs:
-                key = (x.kind, x.text)
-                nodes.setdefault(key, x.node)
-                for a in alts:
-                    conj = frozenset((t, p) for t, p in a if not drop(t))
-                    if _consistent(conj):
-                        table.setdefault(key, set()).add(conj)
+                record((x.kind, x.text), x.node, alts)
             if e[0] == "stmt" and known is not None:
                 for k2, t2, d2, node2 in _inlined(cn, e[1], events_of, unroll, drop, known, _depth):
                     nodes.setdefault((k2, t2), node2)
@@ -280,15 +382,35 @@ def _eval(dnf, assign):
     return any(all(assign[t] == p for t, p in conj) for conj in dnf)
 
 
-def equivalent(d1, d2):
-    at = atoms_of(d1, d2)
-    if len(at) > 12:
-        raise AnalysisIncomplete("more than 12 atoms in one condition comparison")
-    for vals in itertools.product((False, True), repeat=len(at)):
-        asg = dict(zip(at, vals))
-        if _eval(d1, asg) != _eval(d2, asg):
+def _covers(conj, dnf, atoms):
+    """Every assignment that satisfies the conjunction satisfies the DNF (only the atoms the conjunction leaves open
+    are enumerated: path conditions fix most of them)."""
+    fixed = dict(conj)
+    relevant = []
+    cands = []
+    for c in dnf:
+        d = dict(c)
+        if any(fixed.get(t, p) != p for t, p in d.items()):
+            continue                      # contradicts the conjunction
+        rest = {t: p for t, p in d.items() if t not in fixed}
+        if not rest:
+            return True
+        cands.append(rest)
+    if not cands:
+        return False
+    free = sorted({t for r in cands for t in r})
+    if len(free) > 16:
+        raise AnalysisIncomplete("more than 16 open atoms in one condition comparison")
+    for vals in itertools.product((False, True), repeat=len(free)):
+        asg = dict(zip(free, vals))
+        if not any(all(asg[t] == p for t, p in r.items()) for r in cands):
             return False
     return True
+
+
+def equivalent(d1, d2):
+    at = atoms_of(d1, d2)
+    return all(_covers(c, d2, at) for c in d1) and all(_covers(c, d1, at) for c in d2)
 
 
 def implies(dnf, required):
